@@ -29,6 +29,7 @@ scribble_stack(void) {
 		area[i] = 0xa5;
 }
 
+static uint8_t g_pool_flags_next;	/* settings flags of the next pool_make*() (bit0 BIND2CPU, bit1 CLOEXEC) */
 static atomic_uint g_start_hooks;
 static void hook_start(tpt_p tpt) { tp_log(R_HOOK_START, (uint64_t)(uintptr_t)tpt, tpt_get_num(tpt), 0, 0); atomic_fetch_add(&g_start_hooks, 1); }
 static atomic_uint g_stop_hooks;
@@ -57,7 +58,8 @@ pool_make_ex(uint8_t nthreads, uint8_t skip_first, uint16_t stop_mask, const tp_
 	tp_harness_reset(&cp);
 
 	tp_settings_def(&s);
-	s.flags = 0;
+	s.flags = ((g_pool_flags_next & 1) ? TP_S_F_BIND2CPU : 0) | ((g_pool_flags_next & 2) ? TP_S_F_CLOEXEC : 0);
+	g_pool_flags_next = 0;
 	s.threads_max = nthreads;
 	s.tpt_on_start = hook_start;
 	s.tpt_on_stop = hook_stop;
@@ -144,7 +146,7 @@ typedef struct {
 	uint32_t id;
 	atomic_uint cb_count;
 } send_slot;
-#define C05_SLOTS (C05_MAX_SENDERS * C05_MAX_SENDS + 4096 + 2048 + 256)
+#define C05_SLOTS (C05_MAX_SENDERS * C05_MAX_SENDS + 4096 + 2048 + 256 + 8)
 static send_slot slots[C05_SLOTS];
 
 static const c05_scn *g5;
@@ -199,6 +201,24 @@ c05_stall_cb(tpt_p tpt, void *udata) {
 	}
 }
 
+static uint32_t g5_self_base;
+/* runs as the last message of the late burst, i.e. after this thread has processed its stop message: two sends to itself */
+static void
+c05_late_self_cb(tpt_p tpt, void *udata) {
+	send_slot *s = udata;
+	uint32_t k, id;
+	int rc;
+
+	tp_log(R_CB, s->id, (uint64_t)(uintptr_t)tpt, 0, 0);
+	atomic_fetch_add(&s->cb_count, 1);
+	for (k = 0; k < 2; k ++) {
+		id = g5_self_base + k;
+		tp_log(R_SEND_CALL, id, 0, 0, 0);
+		rc = tpt_msg_send(tpt, ((k & 1) ? tpt : NULL), ((k & 1) ? TP_MSG_F_FORCE : 0), c05_cb, &slots[id]);
+		tp_log(R_SEND_RET, id, (uint64_t)(int64_t)rc, 0, 0);
+	}
+}
+
 static uint32_t g5_race_base;
 static atomic_uint g5_race_sent;
 static void *
@@ -246,6 +266,7 @@ c05_run(const c05_scn *scn, c05_out *out) {
 	atomic_store(&g_fence, 0);
 	atomic_store(&g_stop_hooks, 0);
 
+	g_pool_flags_next = scn->pool_flags;
 	out->setup_rc = pool_make(scn->nthreads, scn->skip_first, &scn->plans, &g5_tp, out->tpt_ptr);
 	if (0 != out->setup_rc)
 		return;
@@ -314,11 +335,17 @@ c05_run(const c05_scn *scn, c05_out *out) {
 				for (b = 0; b < scn->late_burst && b < 2000; b ++) {
 					id = out->nsends + b;
 					tp_log(R_SEND_CALL, id, 0, 0, 0);
-					rc = tpt_msg_send(dst, NULL, 0, c05_cb, &slots[id]);
+					g5_self_base = out->nsends + scn->late_burst;
+					rc = tpt_msg_send(dst, NULL, 0,
+					    ((scn->late_self && b + 1 == scn->late_burst) ? c05_late_self_cb : c05_cb), &slots[id]);
 					tp_log(R_SEND_RET, id, (uint64_t)(int64_t)rc, 0, 0);
 				}
 				out->nlate = b;
 				out->nsends += b;
+				if (scn->late_self) {
+					out->nself = 2;
+					out->nsends += 2;
+				}
 			}
 			atomic_store(&g5_stall_release, 1);
 		}
@@ -344,7 +371,7 @@ c05_run(const c05_scn *scn, c05_out *out) {
 
 /* ============================== C10 ============================== */
 static const c10_scn *g10;
-static tp_p g10_tp;
+static tp_p g10_tp, g10_tp2;
 static atomic_uint g10_go, g10_called, g10_done_cbs;
 static struct { uint32_t id; uint16_t cb_usec; } bslot[C10_MAX_BCASTS];
 
@@ -379,7 +406,7 @@ c10_call_deep(size_t bi, int depth) {
 		pad[1] = pad[0];
 		return;
 	}
-	src = (b->src_own && b->in_pool) ? tpt_get_current() : NULL;
+	src = (b->src_own && b->in_pool) ? tpt_get_current() : NULL; /* in_pool 2: the other pool's thread object */
 	tp_log(R_BCAST_CALL, bi, 0, 0, 0);
 	if (0 == b->api) {
 		rc = tpt_msg_bsend_ex(g10_tp, src, b->flags, c10_cb, &bslot[bi].id, &sent, &failed);
@@ -407,10 +434,12 @@ c10_run(const c10_scn *scn, c10_out *out) {
 	int ext_used[C10_MAX_BCASTS];
 	size_t i;
 	uint32_t expect_done = 0, k;
+	int need_foreign = 0;
 
 	memset(out, 0, sizeof(*out));
 	memset(ext_used, 0, sizeof(ext_used));
 	g10 = scn;
+	g10_tp2 = NULL;
 	tp_harness_reset(&scn->plans);
 	atomic_store(&g10_go, 0);
 	atomic_store(&g10_called, 0);
@@ -421,6 +450,7 @@ c10_run(const c10_scn *scn, c10_out *out) {
 		bslot[i].id = (uint32_t)i;
 		bslot[i].cb_usec = scn->b[i].cb_usec;
 	}
+	g_pool_flags_next = scn->pool_flags;
 	out->setup_rc = pool_make_ex(scn->nthreads, scn->skip_first, scn->detach_mask, &scn->plans, &g10_tp, out->tpt_ptr);
 	if (0 != out->setup_rc)
 		return;
@@ -429,8 +459,25 @@ c10_run(const c10_scn *scn, c10_out *out) {
 			out->running_mask |= (uint16_t)(1u << i);
 	}
 	for (i = 0; i < scn->nbcasts; i ++) {
+		if (2 == scn->b[i].in_pool)
+			need_foreign = 1;
+	}
+	if (need_foreign) { /* a second, unrelated one-thread pool whose thread acts as caller */
+		tp_settings_t s2;
+		tp_settings_def(&s2);
+		s2.flags = 0;
+		s2.threads_max = 1;
+		if (0 == tp_create(&s2, &g10_tp2))
+			tp_threads_create(g10_tp2, 0);
+		else
+			g10_tp2 = NULL;
+	}
+	for (i = 0; i < scn->nbcasts; i ++) {
 		const c10_bcast *b = &scn->b[i];
-		int in_pool = b->in_pool && (out->running_mask & (1u << (b->pool_idx % scn->nthreads)));
+		int in_pool = (1 == b->in_pool) && (out->running_mask & (1u << (b->pool_idx % scn->nthreads)));
+		if (2 == b->in_pool && NULL != g10_tp2 && 0 == tpt_msg_send(tp_thread_get(g10_tp2, 0), NULL, 0,
+		    c10_pool_caller_cb, (void *)(uintptr_t)i))
+			continue;
 		if (in_pool && 0 == tpt_msg_send(tp_thread_get(g10_tp, b->pool_idx % scn->nthreads), NULL, 0,
 		    c10_pool_caller_cb, (void *)(uintptr_t)i))
 			continue;
@@ -456,5 +503,11 @@ c10_run(const c10_scn *scn, c10_out *out) {
 	out->hang |= fence_all(g10_tp, scn->nthreads, 0);
 	out->hang |= fence_all(g10_tp, scn->nthreads, 0);
 	tp_log(R_MARK, 1, 0, 0, 0);
+	if (NULL != g10_tp2) {
+		tp_shutdown(g10_tp2);
+		tp_shutdown_wait(g10_tp2);
+		tp_destroy(g10_tp2);
+		g10_tp2 = NULL;
+	}
 	pool_teardown(g10_tp, &out->res);
 }
